@@ -283,9 +283,9 @@ class CrawlRun(object):
             def __init__(self, *a, **kw):
                 fakenet.FakeResolver.__init__(self, net, *a, **kw)
 
-        class TracingTable(SQLiteURLTable):
+        class TracingMixin(object):
             def __init__(self, *a, **kw):
-                SQLiteURLTable.__init__(self, *a, **kw)
+                self._base.__init__(self, *a, **kw)
                 import sqlalchemy.event
                 # every COMMIT is an event of its own (and thereby a crash point): a change that splits one
                 # logical operation into several transactions shows up as additional commits
@@ -294,7 +294,7 @@ class CrawlRun(object):
 
             def add_many(self, new_urls):
                 new_urls = tuple(new_urls)
-                res = SQLiteURLTable.add_many(self, new_urls)
+                res = self._base.add_many(self, new_urls)
                 run.log(e='tx', op='add_many', urls=[run.uid(x[0]) for x in new_urls],
                         levels=[(x[1].level if x[1] is not None and x[1].level is not None else 0) for x in new_urls],
                         inl=[(x[1].inline_level or 0) if x[1] is not None else 0 for x in new_urls],
@@ -303,7 +303,7 @@ class CrawlRun(object):
 
             def check_out(self, filter_status, level=None):
                 try:
-                    rec = SQLiteURLTable.check_out(self, filter_status, level)
+                    rec = self._base.check_out(self, filter_status, level)
                 except Exception as e:
                     run.log(e='tx', op='check_out', st=filter_status.value, u=0, found=False)
                     raise
@@ -312,21 +312,34 @@ class CrawlRun(object):
                 return rec
 
             def check_in(self, url, new_status, increment_try_count=True, url_result=None):
-                SQLiteURLTable.check_in(self, url, new_status, increment_try_count, url_result)
+                self._base.check_in(self, url, new_status, increment_try_count, url_result)
                 run.log(e='tx', op='check_in', u=run.uid(url), st=new_status.value, inc=bool(increment_try_count))
 
             def update_one(self, url, **kwargs):
-                SQLiteURLTable.update_one(self, url, **kwargs)
+                self._base.update_one(self, url, **kwargs)
                 run.log(e='tx', op='update_one', u=run.uid(url), code=int(kwargs.get('status_code') or 0))
 
             def release(self):
-                SQLiteURLTable.release(self)
+                self._base.release(self)
                 run.log(e='tx', op='release')
 
             def remove_many(self, urls):
                 urls = list(urls)
-                SQLiteURLTable.remove_many(self, urls)
+                self._base.remove_many(self, urls)
                 run.log(e='tx', op='remove_many', urls=[run.uid(x) for x in urls])
+
+        from wpull.database.sqltable import GenericSQLURLTable
+
+        class TracingTable(TracingMixin, SQLiteURLTable):
+            _base = SQLiteURLTable
+
+        class TracingGeneric(TracingMixin, GenericSQLURLTable):
+            _base = GenericSQLURLTable
+
+        # --database-uri makes DatabaseSetupTask pick GenericSQLURLTable by name at run time
+        import wpull.application.tasks.database as _dbtask
+        self._restore = (_dbtask, _dbtask.GenericSQLURLTable)
+        _dbtask.GenericSQLURLTable = TracingGeneric
 
         from wpull.processor.delegate import DelegateProcessor
 
@@ -394,6 +407,8 @@ class CrawlRun(object):
             self.exit_code = val if kind == 'ok' else None
         finally:
             os.chdir(old)
+            if getattr(self, '_restore', None):
+                self._restore[0].GenericSQLURLTable = self._restore[1]
             if self.trace_fd is not None:
                 os.close(self.trace_fd)
                 self.trace_fd = None
